@@ -53,6 +53,8 @@ def analyse(program):
             rules.append(AdoptSchema("unadopt", hb))
         if kind == "rc_drop":
             rules.append(Purge(self_box, closures))
+        elif fn is not adopt and fn is not unadopt:
+            rules.append(Purge(self_box, closures, kind, name))
         if name in ("Weak::strong_count", "Weak::weak_count", "Rc::strong_count", "Rc::weak_count"):
             rules.append(Getters(name, self_box))
         if not fn.f.get("impl_trait") and (name.startswith("Rc::") or name.startswith("Weak::")):
@@ -76,6 +78,7 @@ def analyse(program):
             res.obligations.add((rule, what, w["fn"], "%s%s" % (w["bb"], (" via " + via.replace("cactusref::", "")) if via else ""), "%s:%s" % (w["file"], w["line"])))
         # structural rules that use the interpreter's view of iterators
         rules_struct.iter1(eng, sv)
+        rules_struct.iter3(eng, sv)
         rules_struct.search_closures(eng, closures, sv)
         if kind == "rc_drop":
             rules_struct.iter5(eng, sv)
